@@ -232,6 +232,12 @@ type poolItem struct {
 	in kernel.ValueSpec
 }
 
+func init() {
+	for _, a := range workload.Aliasing {
+		directed = append(directed, struct{ Src, In string }{a.Src, a.In})
+	}
+}
+
 func buildPool(seed uint64) *pool {
 	pl := &pool{}
 	for _, d := range directed {
